@@ -66,9 +66,16 @@ func (r *schedReader) Read(p []byte) (int, error) {
 type failWriter struct {
 	buf    bytes.Buffer
 	budget int
+	eager  bool
 }
 
 func (w *failWriter) Write(p []byte) (int, error) {
+	if w.eager && len(p) == w.budget {
+		// reports the failure in the call that reaches the budget, although the slice fits
+		w.buf.Write(p)
+		w.budget = 0
+		return len(p), errInjected
+	}
 	if len(p) <= w.budget {
 		w.buf.Write(p)
 		w.budget -= len(p)
@@ -276,6 +283,25 @@ func TestC13(t *testing.T) {
 					return joinKV("err="+b01(err != nil), "accepted="+hexBytes(fw.buf.Bytes()), "written="+hx(uint64(ew.Written())))
 				})
 				out.emit("write-"+kind, "c13w", []string{kind, ty.Sexp(), v.Sexp(), hx(uint64(p))}, obs)
+				if p > 0 {
+					// the same with a writer that reports its failure eagerly
+					obsE := guard(func() string {
+						fw := &failWriter{budget: p, eager: true}
+						ew := codec.NewEncodingWriter(fw)
+						var err error
+						if kind == "view" {
+							vw, e2 := buildView(ty, v)
+							if e2 != nil {
+								return "enc=ERR"
+							}
+							err = vw.Serialize(ew)
+						} else {
+							err = flatOf(ty, v).Serialize(ew)
+						}
+						return joinKV("err="+b01(err != nil), "accepted="+hexBytes(fw.buf.Bytes()), "written="+hx(uint64(ew.Written())))
+					})
+					out.emit("writeE-"+kind, "c13we", []string{kind, ty.Sexp(), v.Sexp(), hx(uint64(p))}, obsE)
+				}
 			}
 		}
 	}
